@@ -139,6 +139,22 @@ fn main() {
     }
     flush(&mut out, &mut trace, "i256", &mut tidx);
 
+    // 5a. Wad: boundary core squared, exhaustively (incl. aliased operands a == b and 0/0)
+    {
+        let wad = 1_000_000_000_000_000_000i128;
+        let mut wcore = core.clone();
+        wcore.extend_from_slice(&[wad, -wad, wad + 1, wad - 1, 2 * wad, 3, -3, 7]);
+        for (i, &a) in wcore.iter().enumerate() {
+            for &b_ in wcore.iter() {
+                emit(&mut out, &mut trace, format!("WadCMul {} {}", z(a), z(b_)), out_opt(c.try_wmul(&a, &b_)), "wad_mul");
+                emit(&mut out, &mut trace, format!("WadCDiv {} {}", z(a), z(b_)), out_opt(c.try_wdiv(&a, &b_)), "wad_div");
+                emit(&mut out, &mut trace, format!("WadFromRatio {} {}", z(a), z(b_)), out_i128(c.try_wratio(&a, &b_)), "wad_from_ratio");
+            }
+            emit(&mut out, &mut trace, format!("WadFromInteger {}", z(a)), out_i128(c.try_wint(&a)), "wad_from_integer");
+            if i % 3 == 2 { flush(&mut out, &mut trace, "wad-core-lattice", &mut tidx); }
+        }
+        flush(&mut out, &mut trace, "wad-core-lattice", &mut tidx);
+    }
     // 5. Wad
     let nw = if thorough { 10000 } else { 500 } * out.cfg.scale;
     let wad = 1_000_000_000_000_000_000i128;
